@@ -129,7 +129,7 @@ func genC11(rng *rand.Rand, n int) SrvCase {
 	c.Cfg.AttrTTL = 1
 	c.Cfg.ViaConn = rng.Intn(2) == 0 // all requests of the history on one connection, identities alternating on it
 	c.Seed = []string{"mkdir /d", "file /f " + hx([]byte("x")), "link /l f"}
-	creds := []Cred{{Flavor: 1, UID: 0, GID: 0}, {Flavor: 1, UID: 1000, GID: 1000}, {Flavor: 1, UID: 1000, GID: 0}, {Flavor: 1, UID: 0, GID: 5}, {Flavor: 0}, {Flavor: 1, UID: 65534, GID: 65534}}
+	creds := []Cred{{Flavor: 1, UID: 0, GID: 0}, {Flavor: 1, UID: 1000, GID: 1000}, {Flavor: 1, UID: 1000, GID: 0}, {Flavor: 1, UID: 0, GID: 5}, {Flavor: 0, Raw: []byte{}}, {Flavor: 1, UID: 65534, GID: 65534}}
 	ids := []uint32{0, 1000, 7, 65534}
 	for i := 0; i < n; i++ {
 		o := SOp{Cred: creds[rng.Intn(len(creds))]}
